@@ -90,7 +90,7 @@ def tokens():
         if k == "_feature_flag":
             if n == "fast_pred_var":
                 for st in (True, False):
-                    for npv in (1, 3):
+                    for npv in (1, 3, 0):
                         T.append((n, (st, npv), {}, {n: st, "fast_pred_var.num_probe_vectors": npv}))
                 T.append((n, (), {}, {n: True, "fast_pred_var.num_probe_vectors": 1}))
             else:
@@ -103,12 +103,12 @@ def tokens():
             elif n.startswith("_linalg"):
                 vals = [torch.float, torch.half]
             else:
-                vals = [7, 0.5, None]
+                vals = [7, 0.5, None, 0]  # falsy values are values too
             for v in vals:
                 T.append((n, (v,), {}, {n: v}))
         elif k == "_dtype_value_context":
             for f, d, h in [(0.11, None, None), (None, 0.22, None), (None, None, 0.33), (0.12, 0.23, None),
-                            (None, 0.24, 0.34), (0.1, 0.2, 0.3), (None, None, None)]:
+                            (None, 0.24, 0.34), (0.1, 0.2, 0.3), (None, None, None), (0.0, None, None), (None, 0.0, 0.0)]:
                 eff = {}
                 for dn, v in (("float", f), ("double", d), ("half", h)):
                     if v is not None:
@@ -134,6 +134,20 @@ TOKENS = tokens()
 BAD = [("observation_nan_policy", ("bogus",), {}, "ctor"), ("beta.checkpoint_kernel", (3,), {}, "enter-warn-error")]
 
 
+def _reduced():
+    """first two tokens of every class (multi-item / sequential composition is Python's own `with` semantics; the
+    full alphabet is used for genuine nesting F2)"""
+    out, cnt = [], {}
+    for i, t in enumerate(TOKENS):
+        cnt[t[0]] = cnt.get(t[0], 0) + 1
+        if cnt[t[0]] <= 2:
+            out.append(i)
+    return out
+
+
+REDUCED = _reduced()
+
+
 class Boom(Exception):
     def __init__(self, k):
         self.k = k
@@ -152,6 +166,7 @@ def tokstr(tok):
 class Run:
     def __init__(self, default):
         self.default = default
+        self.default_pub = pub(default)
         self.errs = []
         self.states = set()
         self.changed = False
@@ -161,8 +176,8 @@ class Run:
         cur = observe()
         self.nobs += 1
         p = pub(cur)
-        self.states.add(util.digest({k: repr(v) for k, v in p.items()}))
-        if p != pub(self.default):
+        self.states.add(hash(tuple(repr(v) for v in p.values())))  # PYTHONHASHSEED=0: stable across workers
+        if not self.changed and p != self.default_pub:
             self.changed = True
         bad = sorted(k for k in set(p) | set(expect_pub) if p.get(k, "<missing>") != expect_pub.get(k, "<missing>"))
         if bad:
@@ -294,13 +309,13 @@ def programs_for(cell):
             for fin, fout in FAULTS2:
                 yield [("with", a, [("with", b, list(fin))] + list(fout))]
     elif fam == "F2m":
-        for b in range(n):
+        for b in REDUCED:
             for flt in ([], [("raise", 1)]):
                 yield [("with2", a, b, flt)]
             yield [("stack", [a, b], [])]
             yield [("stack", [a, b], [("raise", 1)])]
     elif fam == "F2s":
-        for b in range(n):
+        for b in REDUCED:
             yield [("with", a, []), ("with", b, [])]
             yield [("with", a, [("raise", 1)]), ("with", b, [])]
     elif fam == "F2e":
@@ -368,7 +383,7 @@ def run_cell(cell, seed):
                           "features": {"culprits": cls, "expected_none": nonerestore, "program": describe(prog)}})
     res = {"fails": fails, "ops": nobs, "sig": "ok" if not fails else "violations", "features": {"fam": cell["fam"]},
            "notes": {"programs": nprog, "programs_nontrivial": nontriv},
-           "state_digests": sorted(states)}
+           "state_digests": sorted(str(x) for x in states)}
     return res
 
 
